@@ -46,7 +46,8 @@ def options_strategy():
             o["accel"] = [a, {k: draw(st.integers(lo, hi)) for k, (lo, hi) in g.ACCELERATION_ALGORITHMS[a].items()}]
         if draw(st.integers(0, 4)) == 0:
             o["itermax"] = draw(st.integers(3, 12))
-        mode = draw(st.sampled_from(["plain", "faults", "faults", "faults", "dynamic", "dynamic"]))
+        mode = draw(st.sampled_from(["plain", "faults", "faults", "faults", "dynamic", "dynamic",
+                                     "behaviour_dt", "behaviour_dt"]))
         if mode == "faults":
             n = draw(st.integers(1, 3))
             f = set()
@@ -64,6 +65,21 @@ def options_strategy():
             o["mindt"] = draw(st.booleans())
             if draw(st.booleans()):
                 o["faults"] = [draw(st.integers(0, 20))]
+        elif mode == "behaviour_dt":
+            # the behaviour itself rejects the steps larger than a generated target (parameter verif_dtmax of the
+            # library) and proposes the NON DYADIC factor target/dt; @MinimalTimeStep is given, @MaximalTimeStep
+            # with or without: the last sub-step of every period has to be clipped to end at the requested time
+            o["dynamic"] = True
+            o["mindt"] = True
+            o["substeps"] = 200
+            o["bdt_fraction"] = draw(st.floats(0.07, 0.95))  # x the smallest requested step
+            o["growth"] = draw(st.sampled_from([1.0, 1.0, 1.5, 2.7]))
+            if draw(st.booleans()):
+                o["maxdt_fraction"] = draw(st.floats(0.3, 1.5))
+            if draw(st.booleans()):
+                o["maxscale"] = draw(st.sampled_from([1.2, 1.5, 3.0]))
+            if draw(st.integers(0, 2)) == 0:
+                o["faults"] = [draw(st.integers(0, 30))]
         o["outfreq"] = draw(st.sampled_from(["UserDefinedTimes", "UserDefinedTimes", "EveryPeriod"]))
         return o
 
@@ -91,7 +107,13 @@ def option_lines(case, times):
     if o.get("dynamic"):
         dtmin = min(b - a for a, b in zip(times, times[1:]))
         L.append(["@DynamicTimeStepScaling", "true"])
-        L.append(["@MaximalTimeStep", g.fmt(o["maxdt_fraction"] * dtmin)])
+        if "maxdt_fraction" in o:
+            L.append(["@MaximalTimeStep", g.fmt(o["maxdt_fraction"] * dtmin)])
+        if "bdt_fraction" in o:
+            L.append(["@Parameter", "'verif_dtmax' %s" % g.fmt(o["bdt_fraction"] * dtmin)])
+            L.append(["@Parameter", "'verif_growth' %s" % g.fmt(o["growth"])])
+        if "maxscale" in o:
+            L.append(["@MaximalTimeStepScalingFactor", g.fmt(o["maxscale"])])
         if o.get("mindt"):
             L.append(["@MinimalTimeStep", g.fmt(1e-9 * dtmin)])
     if o["outfreq"] != "UserDefinedTimes":
@@ -219,6 +241,8 @@ def check_case(case):
         classes.append("periods_split")
     if o.get("dynamic"):
         classes.append("dynamic_time_step")
+    if "bdt_fraction" in o:
+        classes.append("behaviour_time_step" + ("" if "maxdt_fraction" in o else ".no_maximal_time_step"))
     pcols = [i for i, n in enumerate(res.names) if "Equivalent" in n]
     inelastic = g.KIND[b] != "elastic" and any(abs(rows[-1][i]) > 1e-8 for i in pcols)
     if inelastic:
